@@ -59,8 +59,8 @@ def setup(h):
     h.status_variables.update({10: secsgem.gem.StatusVariable(10, "sv one", "u", var.U4, False),
                                "SVT": secsgem.gem.StatusVariable("SVT", "sv two", "u", var.U4, False)})
     h.equipment_constants.update({30: secsgem.gem.EquipmentConstant(30, "ec one", 0, 10, 5, "u", var.I4, False),
-                                  "ECT": secsgem.gem.EquipmentConstant("ECT", "ec two", None, None, 5, "u", var.I4, False),
-                                  31: secsgem.gem.EquipmentConstant(31, "ec app", 0, 100, 5, "u", var.I4, True)})
+                                  "ECT": secsgem.gem.EquipmentConstant("ECT", "ec two", 0, None, 5, "u", var.I4, False),
+                                  31: secsgem.gem.EquipmentConstant(31, "ec app", None, 10, 5, "u", var.I4, True)})
     h.alarms.update({40: secsgem.gem.Alarm(40, "al one", "text1", 1, 140, 141),
                      41: secsgem.gem.Alarm(41, "al two", "text2", 2, 142, 143)})
 
